@@ -10,6 +10,16 @@ thread_local! {
 
 pub struct Counting;
 
+/// Set when the system allocator refused a request (the explorer's exabyte-sized virtual entities
+/// make a subject that copies a chunk ask for 2^62 bytes). The SIGABRT handler in report.rs uses
+/// it to tell "allocation failed" (machinery; ./check then reruns without giant entities) from
+/// "the subject panicked again while unwinding" (a verdict).
+pub static ALLOC_FAILED: std::sync::atomic::AtomicBool = std::sync::atomic::AtomicBool::new(false);
+
+fn refused() {
+    ALLOC_FAILED.store(true, std::sync::atomic::Ordering::SeqCst);
+}
+
 fn add(n: isize) {
     let _ = LIVE.try_with(|c| c.set(c.get() + n));
 }
@@ -19,6 +29,8 @@ unsafe impl GlobalAlloc for Counting {
         let p = System.alloc(l);
         if !p.is_null() {
             add(l.size() as isize);
+        } else {
+            refused();
         }
         p
     }
@@ -26,6 +38,8 @@ unsafe impl GlobalAlloc for Counting {
         let p = System.alloc_zeroed(l);
         if !p.is_null() {
             add(l.size() as isize);
+        } else {
+            refused();
         }
         p
     }
@@ -37,6 +51,8 @@ unsafe impl GlobalAlloc for Counting {
         let q = System.realloc(p, l, new_size);
         if !q.is_null() {
             add(new_size as isize - l.size() as isize);
+        } else {
+            refused();
         }
         q
     }
